@@ -317,7 +317,13 @@ def run(ctx):
         for i in fn.insts():
             if i.op != 'call' or not i.callee:
                 continue
-            if re.match(r'^@pthread_(rwlock|mutex)_(try|timed)', i.callee):
+            if re.match(r'^@pthread_(rwlock|mutex)_(destroy|init)$', i.callee) and isinstance(i.ops[0], str) and i.ops[0].startswith('@'):
+                # the library's locks are statically initialised objects that live as long as the process: nothing re-creates them
+                ntry += 1
+                r.fail(f'{fn.name}: {i.callee[1:]} at line {i.line}', func=fn.name, sig=f'{i.callee[1:]} on the static lock {i.ops[0]}', loc=i.loc,
+                       msg=f'{fn.name} calls {i.callee[1:]}({i.ops[0]}): the lock is a statically initialised global that later calls keep using - after a destroy every '
+                           'lock / unlock on it fails (EINVAL, ignored by the callers) and the sections it protected run unserialised')
+            elif re.match(r'^@pthread_(rwlock|mutex)_(try|timed)', i.callee):
                 ntry += 1
                 r.fail(f'{fn.name}: {i.callee[1:]} at line {i.line}', func=fn.name, sig=f'non-blocking acquire {i.callee[1:]}', loc=i.loc,
                        msg=f'{fn.name} takes a library lock with {i.callee[1:]}: when another thread holds the lock the call fails and the failure is reported to '
@@ -325,7 +331,7 @@ def run(ctx):
             elif i.callee in lockset.ACQ:
                 nacq += 1
     if not ntry:
-        r.ok(f'{nacq} lock acquisitions, all blocking', loc='src')
+        r.ok(f'{nacq} lock acquisitions, all blocking; no static lock is destroyed or re-initialised', loc='src')
     r.require_min(1)
 
     # ---------------- R18h tables shared by all instances of a shape are read-only at run time
